@@ -569,16 +569,10 @@ impl TcpConnection {
                     "connection closed with error",
                 );
 
-                self.protocol_set
-                    .report_connection_closed(self.peer, self.endpoint.connection_id())
-                    .await?;
                 Ok(true)
             }
             None => {
                 tracing::debug!(target: LOG_TARGET, peer = ?self.peer, "connection closed");
-                self.protocol_set
-                    .report_connection_closed(self.peer, self.endpoint.connection_id())
-                    .await?;
                 Ok(true)
             }
         }
@@ -737,16 +731,10 @@ impl TcpConnection {
                     "force closing connection",
                 );
 
-                self.protocol_set
-                    .report_connection_closed(self.peer, self.endpoint.connection_id())
-                    .await?;
                 Ok(true)
             }
             None => {
                 tracing::debug!(target: LOG_TARGET, "protocols have disconnected, closing connection");
-                self.protocol_set
-                    .report_connection_closed(self.peer, self.endpoint.connection_id())
-                    .await?;
                 Ok(true)
             }
         }
@@ -755,6 +743,22 @@ impl TcpConnection {
     /// Start the connection event loop without notifying protocols.
     /// This is used when protocols have already been notified during accept().
     pub(crate) async fn start(mut self) -> crate::Result<()> {
+        let result = self.run_event_loop().await;
+
+        // The connection is gone once this function returns, no matter why the event loop
+        // exited. Report it closed to the protocols and to `TransportManager` exactly once.
+        let reported = self
+            .protocol_set
+            .report_connection_closed(self.peer, self.endpoint.connection_id())
+            .await;
+
+        result.and(reported)
+    }
+
+    /// Run the connection event loop until the connection is closed or an error occurs.
+    ///
+    /// The caller is responsible for reporting the closed connection.
+    async fn run_event_loop(&mut self) -> crate::Result<()> {
         loop {
             tokio::select! {
                 substream = self.connection.next() => {
